@@ -11,7 +11,7 @@ RangesNE == { r \in (WLo..WHi) \X (WLo..WHi) : r[1] <= r[2] }
 Op(k, t, a, b) == [k |-> k, t |-> t, a |-> a, b |-> b]
 
 AlphabetOf(t) ==
-     { Op(k, t, 0, 0) : k \in {"Default", "Copy", "Move", "Assign", "Recycle", "VAdd", "VSub", "VMul", "VDiv", "XapybV"} }
+     { Op(k, t, 0, 0) : k \in {"Default", "Copy", "Move", "Assign", "Recycle", "VAdd", "VSub", "VMul", "VDiv", "XapybV", "BAdd", "BSub"} }
   \cup { Op("Construct", t, r[1], r[2]) : r \in RangesNE \cup { << WHi, WLo >> } }
   \cup { Op("View", t, r[1], r[2]) : r \in { q \in RangesNE : q[2] - q[1] + 1 <= K /\ q[1] <= 0 } }
   \cup { Op("Resize", t, r[1], r[2]) : r \in RangesNE \cup { << 0, -1 >> } }
